@@ -116,17 +116,20 @@ def tableModel (ws : List String) : String :=
       (s', acc.2 ++ [fmtTable s'])) (({} : State), [])
     "t " ++ " ".intercalate outs
 
-/-- specification of the table: a peer has exactly one live entry iff its latest event is a well-formed datagram or a
-    server-initiated connection (not a malformed datagram, not a close); never two -/
+/-- the specification event of a model event (the rig's listener is bound to one concrete address) -/
+def toSEv : Ev → SEv
+  | .dgram d => .dgram d.remote d.wellFormed
+  | .newConn r _ => .newConn r
+  | .closePeer r _ => .closePeer r
+
+/-- judge of the `table` lines: `Spec.Server.liveSpec` after every event (`Props.C10.table_meets_spec` shows the model
+    meets it for every history) -/
 def tableSpec (ws : List String) : String :=
   match ws.mapM tableEvent with
   | none => "bad-op"
   | some evs =>
     let (_, outs) := evs.foldl (fun (acc : List Nat × List String) ev =>
-      let live := match ev with
-        | .dgram d => if d.wellFormed then (if acc.1.contains d.remote then acc.1 else acc.1 ++ [d.remote]) else acc.1.filter (· != d.remote)
-        | .newConn r _ => if acc.1.contains r then acc.1 else acc.1 ++ [r]
-        | .closePeer r _ => acc.1.filter (· != r)
+      let live := liveStep acc.1 (toSEv ev)
       let ids := live.mergeSort (· ≤ ·)
       (live, acc.2 ++ [if ids.isEmpty then "-" else ",".intercalate (ids.map toString)])) (([] : List Nat), [])
     "t " ++ " ".intercalate outs
